@@ -322,7 +322,7 @@ static WATCH_ID: std::sync::Mutex<Option<(String, &'static str)>> = std::sync::M
 static WATCH_STARTED: std::sync::atomic::AtomicBool = std::sync::atomic::AtomicBool::new(false);
 
 fn case_timeout_s() -> u64 {
-    std::env::var("VERIF_CASE_TIMEOUT_S").ok().and_then(|s| s.parse().ok()).unwrap_or(300)
+    std::env::var("VERIF_CASE_TIMEOUT_S").ok().and_then(|s| s.parse().ok()).unwrap_or(1800)
 }
 
 fn watch_begin(stage: usize, idx: usize) {
